@@ -444,6 +444,9 @@ class Real:
     def op_recalc(self, flag):
         mx.set_recalc(flag)
 
+    def op_set_recursion(self, n):
+        mx.set_recursion(n)
+
     # -- observation -------------------------------------------------------------
     def held(self):
         """{(sid, cellsname): {key: value}} over static spaces and existing ItemSpaces"""
@@ -675,6 +678,8 @@ def apply_ref(rm, op):
         del s.cells[a[1]]
     elif k == "new_pandas":
         pass        # (an opaque value under a name formulas never read)
+    elif k == "set_recursion":
+        rm.maxdepth = a[0]
     elif k == "copy_cells":
         src, name, dst, new = tuple(a[0]), a[1], tuple(a[2]), a[3]
         _copy_cells(rm, rm.space(src), name, rm.space(dst), new)
